@@ -432,6 +432,49 @@ def directed_cases(rng):
     return out
 
 
+def dom_directed_cases():
+    """Seed-independent family for the DOM stream (phase 8): texts with 0..3 ${references} (plain, last-saved, adjacent,
+    markup characters around them, unknown / ambiguous / malformed names, the survey root, an instance() expression) in
+    every text-bearing itext slot — translated label, hint, guidance hint, constraint / required message, choice label —
+    with a different text per language, outside and inside a repeat."""
+    texts = [
+        "${q0}", "a ${q0} b ${q1} c", "${q0}${q1}", "x ${last-saved#q0} y", "1 < 2 & ${q0} > 3 \"q\" 'r'",
+        "${q0} }", "$ {q0} ${q1} $", "a ${ q0 } b", "${nope}", "${q0", "l1\n${q0}\nl3", "${data} and ${g}",
+        "${dup}", "é ${q1} ü ${q0} ß ${q1}", "<output value=\"x\"/> ${q0}", "-", "- ${q0}", "{q0} ${q0} {",
+        "instance('c')/root/item[name=${q0}]/label", "${q0} ]]> &amp; &#65;", "  ${q0}  ",
+    ]
+    slots = ["label", "hint", "guidance_hint", "constraint_message", "required_message", "choice"]
+    out = []
+    for i, t in enumerate(texts):
+        for j, slot in enumerate(slots):
+            t2 = texts[(i + j + 1) % len(texts)]
+            q = {"type": "integer", "name": "n", "label::en": "N", "constraint": ". > 0", "required": "yes"}
+            ch = [{"list_name": "c", "name": "a", "label::en": "A", "label::fr": "Af"},
+                  {"list_name": "c", "name": "b", "label::en": "B"}]
+            if slot == "choice":
+                ch[1]["label::en"] = t
+                ch[1]["label::fr"] = t2
+            else:
+                q[f"{slot}::en"] = t
+                if j % 2:
+                    q[f"{slot}::fr"] = t2
+                else:
+                    q[slot] = t2
+            base = [{"type": "text", "name": "q0", "label": "Q0"}, {"type": "text", "name": "q1", "label::fr": "Q1"},
+                    {"type": "begin group", "name": "g", "label": "G"}, {"type": "text", "name": "dup", "label": "D"},
+                    {"type": "end group"},
+                    {"type": "begin group", "name": "h", "label": "H"}, {"type": "text", "name": "dup", "label": "D"},
+                    {"type": "end group"}]
+            sel = {"type": "select_one c", "name": "s", "label::en": "S"}
+            out.append({"form": {"survey": base + [q, sel], "choices": ch}, "kw": {}})
+            if i % 3 == 0:
+                # the same element inside a repeat (relative references: outside the stated fragment) next to one outside
+                out.append({"form": {"survey": base + [{"type": "begin repeat", "name": "r", "label::en": t}, dict(q, name="m"),
+                                                        {"type": "text", "name": "q2", "label::en": t2}, {"type": "end repeat"},
+                                                        dict(q), sel], "choices": ch}, "kw": {}})
+    return out
+
+
 def fn_cases(ctx):
     """Call-for-call comparison of the string functions of the model with the implementation's."""
     import os
@@ -465,6 +508,8 @@ def explore(ctx, factor, bs):
     fn_cases(ctx)
     for case in directed_cases(rng):
         one_case(ctx, case, tag="directed")
+    for case in dom_directed_cases():
+        one_case(ctx, case, tag="directed-dom")
     n = ctx.pick(2000, 45000) * min(factor, 3)
     for i in range(n):
         directed = {}
